@@ -992,12 +992,20 @@ class TaskGroup(abc.TaskGroup):
         # scope here.
         try:
             await future
-        except BaseException:
+        except BaseException as exc:
             if handle.status is TaskHandle.Status.PENDING:
                 # Cancel the task and wait for it to exit before returning
                 handle.cancel()
                 with CancelScope(shield=True):
                     await handle.wait()
+            elif future.done() and not future.cancelled():
+                # The child failed before calling task_status.started() and its
+                # exception was handed over to us, but this task was (natively)
+                # cancelled before it got to retrieve it. Nobody else knows about that
+                # exception, so it must take precedence over the cancellation.
+                child_exc = future.exception()
+                if child_exc is not None and child_exc is not exc:
+                    raise child_exc
 
             raise
 
